@@ -120,3 +120,23 @@ pub open spec fn deriv_closure(s: Set<RegLan>, e: RegLan) -> bool {
     &&& all_reach(s, e)
     &&& forall|x: RegLan| #[trigger] s.contains(x) ==> closed_at(s, x)
 }
+
+// ---- term-level view of the exploration (which terms, not only which languages) ----
+
+// the recorded derivatives of e for its first k classes (in ClassIdIterator order) are in s
+pub open spec fn tpartial(m: ReManager, s: Set<RegLan>, e: RegLan, k: int) -> bool {
+    forall|cid: ClassId| cp_valid(dclass(e), cid) && cid_rank(dclass(e), cid) < k ==> #[trigger] has_tderiv_in(m, s, e, cid)
+}
+
+// between two pops: every seen term is generated from e0, every popped term has its recorded derivatives in the set
+pub open spec fn tcw_inv(m: ReManager, qu: BfsQueue<RegLan>, e0: RegLan) -> bool {
+    &&& all_treach(m, qu.set@, e0)
+    &&& forall|x: RegLan| #[trigger] q_done(qu, x) ==> tclosed_at(m, qu.set@, x)
+}
+
+// while e is being expanded
+pub open spec fn tcw_frame(m: ReManager, qu: BfsQueue<RegLan>, e0: RegLan, e: RegLan) -> bool {
+    &&& all_treach(m, qu.set@, e0)
+    &&& qu.set@.contains(e)
+    &&& forall|x: RegLan| #[trigger] q_done(qu, x) && x != e ==> tclosed_at(m, qu.set@, x)
+}
